@@ -26,3 +26,24 @@ package vgirpc
 //@ func ReadRequest
 //@   property C02
 //@   ensures [local_drained] result1 == nil || typeof(result1) == *RpcError ==> exhausted(reader)
+
+// serveOne answers every request it could read exactly once, on the connection's own writer:
+// on every path exactly one of the responders (an error response, the describe / transport-options
+// answers, the unary or the stream dispatcher) is called, none after another, and the function
+// reports "continue serving" (nil) only after one of them ran. (What each responder writes is its
+// own contract: C04 for unary, C06 for streams.)
+//
+//@ func (*Server).serveOne
+//@   property C02
+//@   pathflag answered
+//@   at call writeErrorResponse assert [once_error] !answered && arg0 == w
+//@   at call writeErrorResponse mark answered
+//@   at call (*Server).serveDescribe assert [once_describe] !answered && arg1 == w
+//@   at call (*Server).serveDescribe mark answered
+//@   at call (*Server).serveTransportOptions assert [once_options] !answered && arg1 == w
+//@   at call (*Server).serveTransportOptions mark answered
+//@   at call (*Server).serveUnary assert [once_unary] !answered && arg2 == w && arg3 == req
+//@   at call (*Server).serveUnary mark answered
+//@   at call (*Server).serveStream assert [once_stream] !answered && arg3 == w && arg2 == r && arg4 == req
+//@   at call (*Server).serveStream mark answered
+//@   ensures [local_answered] result == nil ==> answered
